@@ -1,12 +1,15 @@
 """C10 — source life cycle: start/stop always completes, cleans up, and is repeatable."""
+import random
 import vlib
 import lifecycle_common as L
+import lancerolife as LL
 
 LEVEL = "model_checking"
 PREFIXES = ("C10_",)
 ASSUME = ["gates sit at the vpoint hooks (build tag verif); a step of the model = release of the goroutine(s) it names and their arrival at the next gate",
           "select races the driver cannot force (timer vs abort, data vs closed channel) are left out of replayed behaviours (Replayable = TRUE); they are in the exhaustive model",
-          "gated replay: producers Triangle (simple) and Erroring; the real Abaco source is exercised ungated over localhost UDP (failed start without data, start, stop, restart, goroutine census); Lancero/Roach chains are not exercised for this property",
+          "gated replay: producers Triangle (simple) and Erroring; the real Abaco source is exercised ungated over localhost UDP (failed start without data, start, stop, restart, goroutine census); the Lancero chain runs ungated on a scripted card through the RPC methods (LanceroLifecycle.tla: start, stop, restart, silent card, goroutine census, card released)",
+          "free-running schedules (2-8 simultaneous Stop callers, also racing the erroring source's own end) sample the windows between the hooks; the vheld hook reports whether Stop and Start decide and act under the state lock, as the model's atomic actions assume",
           "a hang is a call that has not returned 2 s after every gate was opened, reported with its blocking frame",
           "Stop on a source that is still Starting panics by design below the RPC layer; the RPC layer never lets it happen (checked in the model with RPCLayer = TRUE/FALSE)"]
 
@@ -44,6 +47,14 @@ def collect(ctx, q):
     n = 40 if q else 400
     scens += L.sim_scens(ctx, "LifecycleSim.cfg", n)
     scens += L.sim_scens(ctx, "LifecycleSimErr.cfg", n // 2)
+    # free-running schedules: Start, then 2-8 simultaneous Stop callers (racing with the erroring source's own end); the
+    # windows between the hooks, which the gated replay cannot open, are left to the Go scheduler
+    rng = random.Random(ctx.seed + 77)
+    nf = 40 if q else 800
+    for i in range(nf):
+        scens.append({"origin": "free-running", "producer": "simple" if i % 2 == 0 else "erroring", "steps": [], "reqkinds": ["trigger", "pulselengths"],
+                      "free": {"nstop": rng.choice([2, 3, 8]), "delayus": rng.choice([0, 200, 1000, 3000, 10000, 30000]), "rounds": rng.choice([1, 4, 10])}})
+    ctx.notes["free_running_schedules"] = nf
     return scens
 
 
@@ -51,10 +62,17 @@ def run(ctx):
     scens = collect(ctx, ctx.quick())
     ctx.notes["schedules"] = len(scens)
     L.validate(ctx, scens, PREFIXES, udp=True)
+    LL.stage(ctx, PREFIXES)
     return vlib.finish(ctx, LEVEL,
                        "schedule = TLC behaviour of Lifecycle.tla (counterexample or simulation) replayed step by step on the real code; distinct by hash of the executed steps; non-trivial = the core loop exited or a request was answered, with >= 2 concurrent callers",
                        ASSUME, exhaustive=False)
 
 
 def replay(ctx, path):
+    import json
+    with open(path) as f:
+        obj = json.load(f)
+    if "lancero_life" in obj.get("replay", {}):
+        LL.stage(ctx, PREFIXES, only=obj["replay"]["lancero_life"])
+        return vlib.finish(ctx, LEVEL, "replay of one recorded Lancero life-cycle history", [])
     return L.replay(ctx, path, PREFIXES, LEVEL)
